@@ -53,7 +53,9 @@ pub fn run(seed: u64, ntraces: usize) {
         let nops = 10 + r.below(14) as usize;
         // directed prefix (every third trace): flow one way under a high limit, lower the limit, then a larger transfer the other way
         let mut forced: Vec<(u64, u64)> = vec![];     // (op kind, amount / limit)
-        if t % 3 == 0 && cur_token.is_some() { forced = if t % 6 == 0 { vec![(2, 40), (1, 40), (2, 8), (0, 40), (0, 8), (0, 1)] } else { vec![(1, 50), (2, 40), (0, 40), (2, 8), (1, 40), (1, 8)] }; }
+        if t % 3 == 0 && cur_token.is_some() { forced = if t % 6 == 0 { vec![(2, 40), (1, 40), (2, 8), (0, 40), (0, 8), (0, 1)] } else { vec![(1, 50), (2, 40), (0, 40), (2, 8), (1, 40), (1, 8)] };
+                                               // the limit is lowered to ZERO in an epoch that already has flow in both directions: nothing is rejected for flow reasons any more
+                                               forced.extend(vec![(2, 0), (1, 10), (0, 10), (1, 5000), (0, 60), (2, 40)]); }
         // directed role schedule (every third trace): propose, accept, hand back, replay the accept; (kind, 10*caller + target) over users [s, op, m, f, x]
         if t % 3 == 1 && operator.is_some() { forced = vec![(7, 14), (8, 41), (6, 41), (8, 41), (7, 13), (7, 14), (8, 31), (8, 41), (8, 41),
                                                            // a proposal of one role is not an offer of the other: operatorship proposed, mintership 'accepted' (refused), and the reverse
